@@ -54,13 +54,13 @@ def prog_case(rng):
     else:
         prog, regs = G.structured_program(rng, size=rng.randint(4, 30), aligned=rng.random() < 0.6, faults=rng.random() < 0.3)
     case = {"kind": "prog", "prog": prog, "regs": regs, "mem": G.init_mem(rng), "max_steps": 400, "via": "asm" if rng.random() < 0.25 else "direct"}
-    if rng.random() < 0.25:
+    if rng.random() < 0.4:
         # the ISA semantics do not depend on the cache configuration: same lockstep comparison with caches on
         # (programs whose accesses stay within one word - crossing accesses are rejected by a data cache, see C03)
         from .cache import rand_cfg
 
         if k < 0.5:
-            case["prog"] = G.soup_program(rng, rng.randint(1, 24), aligned=True)
+            case["prog"] = G.soup_program(rng, rng.randint(4, 30), aligned=True, mem_w=0.4)
         else:
             case["prog"], case["regs"] = G.structured_program(rng, size=rng.randint(4, 30), aligned=True, faults=False)
         case["dcache"] = rand_cfg(rng, small=True)
